@@ -29,9 +29,9 @@ from vf.ref import c43_view as ref
 
 PROPERTY = "C43"
 LEVEL = "exploration"
-BUDGET = {"quick": (900, 14), "thorough": (60_000, 200)}
+BUDGET = {"quick": (900, 12), "thorough": (60_000, 200)}
 WORKERS = {"quick": 2, "thorough": 16}
-REQUIRED = ["membership", "order", "focus", "settings", "signals"]
+REQUIRED = ["membership", "order", "focus", "settings", "signals", "remove_after_silent_change"]
 ENGINE = "direct"
 TECHNIQUE = "model-based history checking of the real View against a list model with an independent filter evaluator"
 RULE = (
@@ -302,6 +302,7 @@ def run_case(ctx):
         for i in model.store:
             vis[i] = model.matches(facts[i])
 
+    forced_remove = None  # ids to remove in the next operation (right after they changed without notification)
     hist = []
     feats = {"ops": set(), "orders": set(), "marked_only": False, "reversed": False, "filters": 0, "keychange": False, "silent_keychange": False, "ctl": False, "nonempty": False}
     n_ops = r.choice([5, 10, 20, 30, 45, 60])
@@ -310,6 +311,8 @@ def run_case(ctx):
         rec = Recorder(v)
         for step in range(n_ops):
             op = r.choice(OPS)
+            if forced_remove:
+                op = "remove"
             before = [x.id for x in v]
             store_before = list(v._store.keys())
             rec.events.clear()
@@ -360,10 +363,16 @@ def run_case(ctx):
             elif op == "mutate_only":
                 # the flow object changes but no hook reaches the view (e.g. a script rewrites the request in the `request`
                 # hook): the view may keep showing/sorting it as last notified until the next update or rebuild
-                ids = r.sample(list(flows), r.randint(1, 3))
+                # mostly flows that are shown, changed until the key of the selected order moves; often removed right after
+                src_ids = before if (before and r.random() < 0.7) else list(flows)
+                ids = r.sample(src_ids, min(len(src_ids), r.randint(1, 3)))
                 labels = []
                 for i in ids:
-                    labels.append(mutate(r, facts[i]))
+                    k0 = ref.sort_key(facts[i], model.order)
+                    for _ in range(6):
+                        labels.append(mutate(r, facts[i]))
+                        if ref.sort_key(facts[i], model.order) != k0:
+                            break
                     sync(flows[i], facts[i])
                     if i in model.store:
                         k = allkeys(i)
@@ -371,8 +380,14 @@ def run_case(ctx):
                             feats["silent_keychange"] = True
                         pend[i].append(k)
                 desc = f"mutate_only {','.join(labels)}"
+                if r.random() < 0.6:
+                    forced_remove = list(ids)
             elif op == "remove":
                 ids = r.sample(list(flows), r.randint(1, 2))
+                if forced_remove:
+                    ids = forced_remove + [i for i in ids if i not in forced_remove][: r.randint(0, 1)]
+                    forced_remove = None
+                    ctx.count("remove_after_silent_change")
                 v.remove([flows[i] for i in ids])
                 for i in ids:
                     if i in model.store:
